@@ -1540,6 +1540,17 @@ JanetFiber *janet_loop1(void) {
     while (peek_timeout(&to) && to.when <= now) {
         pop_timeout(0);
         if (to.curr_fiber != NULL) {
+            if (to.has_worker) {
+                /* The interrupting worker slept for the same duration and is done (or about to be): reap it,
+                 * an unjoined thread keeps its stack. */
+#ifdef JANET_WINDOWS
+                WaitForSingleObject(to.worker, INFINITE);
+                CloseHandle(to.worker);
+#else
+                void *res;
+                pthread_join(to.worker, &res);
+#endif
+            }
             if (janet_fiber_can_resume(to.curr_fiber)) {
                 janet_cancel(to.fiber, janet_cstringv("deadline expired"));
             }
